@@ -32,6 +32,9 @@ type Engine struct {
 	// Opaque: callees that are never inlined (their result is an application value).
 	Opaque func(fn *ssa.Function) bool
 	apps   map[symID]*appInfo
+	// rfApps: sqrt applications whose argument is a rational function (canonical reuse)
+	rfApps   map[string][]symID
+	positive []*Poly
 	// statistics
 	Inlined  int
 	Executed map[*ssa.Function]bool
@@ -47,7 +50,7 @@ type appInfo struct {
 
 func NewEngine(p *load.Program) *Engine {
 	return &Engine{P: p, ST: NewSymTab(), MaxDepth: 6, MaxPaths: 256, MaxSteps: 400000,
-		apps: map[symID]*appInfo{}, Executed: map[*ssa.Function]bool{}}
+		apps: map[symID]*appInfo{}, rfApps: map[string][]symID{}, Executed: map[*ssa.Function]bool{}}
 }
 
 type EndKind int
@@ -114,6 +117,8 @@ type Path struct {
 	Iter   *LoopIter
 	Abort  string
 	Notes  []string
+	// Made: with RunThen, the function value the constructor returned on this path
+	Made Val
 	// LoopExits: (entry, block the loop was left from)
 	LoopExits []LoopExit
 	slices    map[string]*SliceObj // every slice object whose elements were touched
@@ -177,10 +182,15 @@ type xrun struct {
 	lookups   map[string]*SliceObj
 	globals   map[*ssa.Global]*Cell
 	slices    map[string]*SliceObj
+	then      []Val
 }
 
 // Run explores every path of fn applied to args (which are cloned per path).
-func (e *Engine) Run(fn *ssa.Function, args []Val) *Result {
+func (e *Engine) Run(fn *ssa.Function, args []Val) *Result { return e.RunThen(fn, args, nil) }
+
+// RunThen runs fn(args) and, when then != nil, applies the function value it returns to then
+// within the same path (constructor + closure call): Ret is the result of that second call.
+func (e *Engine) RunThen(fn *ssa.Function, args []Val, then []Val) *Result {
 	res := &Result{Fn: fn}
 	if fn == nil || fn.Blocks == nil {
 		res.Err = "function has no body"
@@ -195,6 +205,14 @@ func (e *Engine) Run(fn *ssa.Function, args []Val) *Result {
 		for i, a := range args {
 			cargs[i] = cl.val(a)
 		}
+		var cthen []Val
+		if then != nil {
+			cthen = make([]Val, len(then))
+			for i, a := range then {
+				cthen[i] = cl.val(a)
+			}
+		}
+		r.then = cthen
 		p := r.execute(fn, cargs)
 		p.Args = cargs
 		res.Paths = append(res.Paths, p)
@@ -235,8 +253,38 @@ func (r *xrun) execute(fn *ssa.Function, args []Val) (p *Path) {
 		p.slices = r.slices
 	}()
 	p.Ret = r.call(fn, args, nil, "", 0)
+	if r.then != nil {
+		if len(p.Ret) != 1 {
+			r.abort("constructor returns %d values", len(p.Ret))
+		}
+		p.Made = p.Ret[0]
+		switch fv := p.Ret[0].(type) {
+		case *ClosureV:
+			p.Ret = r.call(fv.fn, r.then, fv.binds, "closure/", 0)
+		case *ssa.Function:
+			p.Ret = r.call(fv, r.then, nil, "closure/", 0)
+		default:
+			// an uninterpreted function value (a parameter, an element of a parameter slice)
+			p.Ret = []Val{e0(r).applyOpaque(r.e.valKey(fv), r.then)}
+		}
+	}
 	p.Kind = EndReturn
 	return p
+}
+
+func e0(r *xrun) *Engine { return r.e }
+
+// applyOpaque is the value of calling the uninterpreted function `name` on args (components flattened).
+func (e *Engine) applyOpaque(name string, args []Val) Val {
+	var sc []Scalar
+	for _, a := range args {
+		var ls []leaf
+		leaves(a, "", &ls)
+		for _, l := range ls {
+			sc = append(sc, l.s)
+		}
+	}
+	return e.app("call:dyn:"+name, sc)
 }
 
 func (r *xrun) abort(format string, a ...any) {
@@ -588,7 +636,7 @@ func (f *frame) asBool(v Val) BoolV {
 		return x
 	}
 	k := f.r.e.valKey(v)
-	return BoolV{atom: Atom{"o:" + k, "!o:" + k}}
+	return BoolV{atom: Atom{key: "o:" + k, neg: "!o:" + k}}
 }
 
 func (f *frame) set(v ssa.Value, val Val) { f.env[v] = val }
@@ -675,7 +723,7 @@ func (f *frame) step(in ssa.Instruction) {
 		v := f.eval(x.X)
 		if x.CommaOk {
 			k := e.valKey(v) + ".(" + x.AssertedType.String() + ")"
-			f.set(x, &MultiV{v: []Val{v, BoolV{atom: Atom{"o:" + k, "!o:" + k}}}})
+			f.set(x, &MultiV{v: []Val{v, BoolV{atom: Atom{key: "o:" + k, neg: "!o:" + k}}}})
 		} else {
 			f.set(x, v)
 		}
@@ -754,7 +802,7 @@ func (f *frame) opaqueOf(t types.Type, name string, deps depset) Val {
 		id := e.ST.Intern(name, SymApp)
 		return Scalar{v: rfPoly(PolySym(id)), deps: deps}
 	case kBool:
-		return BoolV{atom: Atom{"o:" + name, "!o:" + name}, deps: deps}
+		return BoolV{atom: Atom{key: "o:" + name, neg: "!o:" + name}, deps: deps}
 	case kStr:
 		return StrV{s: name}
 	case kStruct:
@@ -1002,17 +1050,104 @@ func (e *Engine) MinMax(op string, args []Scalar) Scalar {
 	return out
 }
 
-// Sqrt builds sqrt(p) with the rewrite sqrt(p)^2 -> p (p a polynomial).
+// Sqrt builds sqrt(p) with the rewrite sqrt(p)^2 -> p (p a polynomial). For a rational
+// argument an existing sqrt whose argument is the same rational function (compared by
+// cross-multiplication) is reused, so the symbol is canonical.
 func (e *Engine) Sqrt(a Scalar) Scalar {
-	out := e.app("sqrt", []Scalar{a})
-	if a.v.d == nil {
-		if id, ok := singleSym(out.v); ok {
-			if _, have := e.ST.square[id]; !have {
-				e.ST.square[id] = a.v.n
+	if c, ok := a.v.Const(); ok {
+		if c.Sign() == 0 {
+			return Scalar{v: rfInt(0), deps: a.deps}
+		}
+		if c.Cmp(big.NewRat(1, 1)) == 0 {
+			return Scalar{v: rfInt(1), deps: a.deps}
+		}
+	}
+	if a.v.d != nil {
+		for _, id := range e.rfApps["sqrt"] {
+			if ai := e.apps[id]; ai != nil && len(ai.args) == 1 && ai.args[0].Equal(a.v, e.ST) {
+				return Scalar{v: rfPoly(PolySym(id)), deps: a.deps}
 			}
 		}
 	}
+	out := e.app("sqrt", []Scalar{a})
+	if id, ok := singleSym(out.v); ok {
+		if a.v.d == nil {
+			if _, have := e.ST.square[id]; !have {
+				e.ST.square[id] = a.v.n
+			}
+		} else {
+			e.rfApps["sqrt"] = append(e.rfApps["sqrt"], id)
+		}
+	}
 	return out
+}
+
+// Abs builds |a| with |c·p| = |c|·|p| (the sign of the leading coefficient is normalised,
+// so |a−b| and |b−a| are one symbol) and the rewrite |p|² -> p².
+func (e *Engine) Abs(a Scalar) Scalar {
+	if c, ok := a.v.Const(); ok {
+		return Scalar{v: rfPoly(PolyConst(new(big.Rat).Abs(c))), deps: a.deps}
+	}
+	if a.v.d != nil {
+		n := e.Abs(Scalar{v: rfPoly(a.v.n), deps: a.deps})
+		d := e.Abs(Scalar{v: rfPoly(a.v.d)})
+		q, _ := e.Div(n, d)
+		return q
+	}
+	// an |x| or sqrt(x) symbol alone is already non-negative
+	if id, ok := singleSym(a.v); ok {
+		if ai := e.apps[id]; ai != nil && (ai.op == "abs" || ai.op == "sqrt") {
+			return a
+		}
+	}
+	ts := a.v.n.sortedTerms(e.ST)
+	lead := new(big.Rat).Set(ts[0].c)
+	q := a.v.n.Scale(new(big.Rat).Inv(lead))
+	out := e.app("abs", []Scalar{{v: rfPoly(q), deps: a.deps}})
+	if id, ok := singleSym(out.v); ok {
+		if _, have := e.ST.square[id]; !have {
+			e.ST.square[id] = q.Mul(q, e.ST)
+		}
+	}
+	return Scalar{v: out.v.Mul(rfPoly(PolyConst(lead.Abs(lead))), e.ST), deps: a.deps}
+}
+
+// AssumePositive registers a polynomial the client assumes to be > 0 (a squared length of a
+// non-degenerate segment, …): comparisons may then be cross-multiplied by it.
+func (e *Engine) AssumePositive(a Scalar) {
+	if a.v.d == nil && !a.v.n.IsZero() {
+		e.positive = append(e.positive, a.v.n.leadNormalize(e.ST, true))
+	}
+}
+
+// positiveDen: is the denominator d known to be positive (registered, or a product of
+// sqrt/abs symbols and even powers with a positive coefficient)?
+func (e *Engine) positiveDen(d *Poly) bool {
+	if len(d.t) == 1 {
+		for _, t := range d.t {
+			if t.c.Sign() <= 0 {
+				return false
+			}
+			for _, se := range t.m {
+				ai := e.apps[se.s]
+				if se.e%2 != 0 && !(ai != nil && (ai.op == "sqrt" || ai.op == "abs")) {
+					return false
+				}
+			}
+			return true
+		}
+	}
+	n := d.leadNormalize(e.ST, true)
+	for _, p := range e.positive {
+		if n.Equal(p) { // both divided by |leading coefficient|: equal means d = c·p with c > 0
+			return true
+		}
+		// product of two registered positives / square of one
+		if n.Equal(p.Mul(p, e.ST).leadNormalize(e.ST, true)) {
+			return true
+		}
+	}
+	return false
 }
 
 func (e *Engine) Add(a, b Scalar) Scalar { return Scalar{a.v.Add(b.v, e.ST), a.deps.union(b.deps)} }
@@ -1033,10 +1168,13 @@ func (e *Engine) CmpAtom(op token.Token, a, b Scalar) BoolV {
 	default:
 		d = a.v.Sub(b.v, e.ST)
 	}
+	if d.d != nil && e.positiveDen(d.d) {
+		d = RF{n: d.n}
+	}
 	if d.d != nil {
 		// the sign of a quotient is not the sign of its numerator: keep the atom uninterpreted
 		k := fmt.Sprintf("cmp[%s %s %s]", rfKey(a.v, e.ST), op, rfKey(b.v, e.ST))
-		return BoolV{atom: Atom{k, "!" + k}, deps: deps}
+		return BoolV{atom: Atom{key: k, neg: "!" + k}, deps: deps}
 	}
 	p := d.n
 	if c, ok := p.Const(); ok {
@@ -1057,16 +1195,16 @@ func (e *Engine) CmpAtom(op token.Token, a, b Scalar) BoolV {
 	switch op {
 	case token.LSS, token.GTR:
 		pos := p.leadNormalize(e.ST, true)
-		return BoolV{atom: Atom{pos.String(e.ST) + " > 0", pos.Neg().String(e.ST) + " >= 0"}, deps: deps}
+		return BoolV{atom: Atom{key: pos.String(e.ST) + " > 0", neg: pos.Neg().String(e.ST) + " >= 0", p: pos, strict: true}, deps: deps}
 	case token.LEQ, token.GEQ:
 		pos := p.leadNormalize(e.ST, true)
-		return BoolV{atom: Atom{pos.String(e.ST) + " >= 0", pos.Neg().String(e.ST) + " > 0"}, deps: deps}
+		return BoolV{atom: Atom{key: pos.String(e.ST) + " >= 0", neg: pos.Neg().String(e.ST) + " > 0", p: pos}, deps: deps}
 	case token.EQL:
 		n := p.leadNormalize(e.ST, false)
-		return BoolV{atom: Atom{n.String(e.ST) + " == 0", n.String(e.ST) + " != 0"}, deps: deps}
+		return BoolV{atom: Atom{key: n.String(e.ST) + " == 0", neg: n.String(e.ST) + " != 0"}, deps: deps}
 	default:
 		n := p.leadNormalize(e.ST, false)
-		return BoolV{atom: Atom{n.String(e.ST) + " != 0", n.String(e.ST) + " == 0"}, deps: deps}
+		return BoolV{atom: Atom{key: n.String(e.ST) + " != 0", neg: n.String(e.ST) + " == 0"}, deps: deps}
 	}
 }
 
@@ -1111,7 +1249,7 @@ func (f *frame) binop(op token.Token, a, b Val, operandT types.Type, at ssa.Valu
 			ka, kb = kb, ka
 		}
 		k := "eq[" + ka + ", " + kb + "]"
-		at := Atom{"o:" + k, "!o:" + k}
+		at := Atom{key: "o:" + k, neg: "!o:" + k}
 		if op == token.NEQ {
 			at = at.Not()
 		}
@@ -1151,7 +1289,7 @@ func (f *frame) lookup(x *ssa.Lookup) Val {
 	}
 	if x.CommaOk {
 		hk := "has[" + name + "]"
-		return &MultiV{v: []Val{val, BoolV{atom: Atom{"o:" + hk, "!o:" + hk}}}}
+		return &MultiV{v: []Val{val, BoolV{atom: Atom{key: "o:" + hk, neg: "!o:" + hk}}}}
 	}
 	return val
 }
@@ -1311,11 +1449,18 @@ func (f *frame) opaqueCall(name string, obj *types.Func, args []Val, resT types.
 			deps = deps.union(s.deps)
 			argScalars = append(argScalars, s)
 		} else {
-			allScalar = false
 			var ls []leaf
 			leaves(a, "", &ls)
 			for _, l := range ls {
 				deps = deps.union(l.s.deps)
+			}
+			// a struct / array made of scalars only is passed as its components
+			if _, isT := a.(*TupleV); isT && len(ls) > 0 && len(ls) == countLeaves(a) {
+				for _, l := range ls {
+					argScalars = append(argScalars, l.s)
+				}
+			} else {
+				allScalar = false
 			}
 		}
 	}
@@ -1355,6 +1500,25 @@ func (f *frame) opaqueCall(name string, obj *types.Func, args []Val, resT types.
 	return mk(resT, 0)
 }
 
+// countLeaves counts every leaf of a value, scalar or not.
+func countLeaves(v Val) int {
+	switch x := v.(type) {
+	case *TupleV:
+		n := 0
+		for _, f := range x.f {
+			n += countLeaves(f)
+		}
+		return n
+	case *ArrV:
+		n := 0
+		for _, f := range x.e {
+			n += countLeaves(f)
+		}
+		return n
+	}
+	return 1
+}
+
 func (f *frame) mathCall(fn *ssa.Function, args []Val) (Val, bool) {
 	e := f.r.e
 	if fnPkgPath(fn) != "math" || fn.Signature.Recv() != nil {
@@ -1385,6 +1549,10 @@ func (f *frame) mathCall(fn *ssa.Function, args []Val) (Val, bool) {
 		if len(sc) == 1 {
 			return e.Sqrt(sc[0]), true
 		}
+	case "Abs":
+		if len(sc) == 1 {
+			return e.Abs(sc[0]), true
+		}
 	case "Pow":
 		if len(sc) == 2 {
 			if c, ok := sc[1].v.Const(); ok && c.IsInt() && c.Sign() >= 0 && c.Num().Int64() <= 8 {
@@ -1407,7 +1575,7 @@ func (f *frame) mathCall(fn *ssa.Function, args []Val) (Val, bool) {
 			deps = deps.union(s.deps)
 		}
 		k := "math." + fn.Name() + "(" + strings.Join(keys, ", ") + ")"
-		return BoolV{atom: Atom{"o:" + k, "!o:" + k}, deps: deps}, true
+		return BoolV{atom: Atom{key: "o:" + k, neg: "!o:" + k}, deps: deps}, true
 	}
 	return nil, false
 }
